@@ -53,6 +53,75 @@ def gen_recycle(rng):
     return {"src": "recycle", "steps": steps}
 
 
+def decorate(behs, rng):
+    """implementation-level variations the abstract history does not distinguish (the specification's verdict is the same):
+    the collector behind Box / Arc, a per-layer-filtered third layer with some spans hidden from it, raw references
+    (Dispatch::clone_span given back by try_close / drop_span), handles dropped by an unwinding panic, and drops that
+    overlap other threads' operations (parked inside a layer's on_close until `release`; they take effect there)"""
+    for b in behs:
+        if b.get("mode") or b.get("src") == "f2-reproducer":
+            continue
+        b["wrap"] = rng.choice(["none", "none", "box", "arc"])
+        b["plf"] = rng.random() < 0.5
+        out, pending_release, steps = [], None, b["steps"]
+        for i, st in enumerate(steps):
+            st = dict(st)
+            if st["op"] == "new" and b["plf"] and rng.random() < 0.35:
+                st["hide"] = True
+            if st["op"] == "clone" and rng.random() < 0.35:
+                st["raw"] = rng.choice(["try_close", "drop_span"])
+            if st["op"] == "drop":
+                if rng.random() < 0.5:
+                    st["front"] = True
+                if rng.random() < 0.15:
+                    st["unwind"] = True
+                run = 0
+                while i + 1 + run < len(steps) and steps[i + 1 + run]["t"] != st["t"]:
+                    run += 1
+                if pending_release is None and run >= 1 and rng.random() < 0.4:
+                    st["hold"] = True
+                    pending_release = (i + rng.randint(1, run), st["t"])
+            out.append(st)
+            if pending_release and pending_release[0] == i:
+                out.append({"op": "release", "t": pending_release[1]})
+                pending_release = None
+        if pending_release:
+            out.append({"op": "release", "t": pending_release[1]})
+        b["steps"] = out
+    return behs
+
+
+def gen_overlap(rng):
+    """closes that overlap across threads: thread 1 is parked inside a layer's on_close for a span while thread 2
+    creates, closes and cascades other spans of the same registry (the CloseGuard counter is per thread)"""
+    steps = [{"op": "switch", "t": 1, "r": 1}, {"op": "switch", "t": 2, "r": 1}]
+    n = 0
+    def new(t, pk, p=0):
+        nonlocal n
+        n += 1
+        steps.append({"op": "new", "t": t, "pk": pk, "p": p})
+        return n
+    for _ in range(rng.randint(2, 4)):
+        a = new(1, "root")
+        x = new(1, "of", a) if rng.random() < 0.6 else a
+        mine = [new(2, "root")]
+        for _ in range(rng.randint(0, 2)):
+            mine.append(new(2, "of", rng.choice(mine)))
+        steps.append({"op": "drop", "t": 1, "s": x, "hold": True})
+        rng.shuffle(mine)
+        for y in mine:
+            steps.append({"op": "drop", "t": 2, "s": y})
+            if rng.random() < 0.3:
+                steps.append({"op": "event", "t": 2, "pk": "root", "p": 1})
+        if x != a and rng.random() < 0.5:
+            steps.append({"op": "drop", "t": 2, "s": a})       # the parked child still holds it: it closes in the cascade at release
+            a = None
+        steps.append({"op": "release", "t": 1})
+        if a is not None and x != a:
+            steps.append({"op": "drop", "t": 1, "s": a})
+    return {"src": "overlap", "steps": steps}
+
+
 def execute(behs, name):
     w = vlib.workdir(name)
     vlib.write_ndjson(w / "behaviours.ndjson", behs)
@@ -93,12 +162,22 @@ def run(out, tier, prop):
     rng = random.Random(s * 5 + 1)
     for _ in range(60 if quick else 600):
         behs.append(gen_recycle(rng))
+    # half of the histories also run with implementation-level variations; the other half stay plain
+    plain = behs[::2]
+    behs = plain + decorate([json.loads(json.dumps(b)) for b in behs[1::2]], rng)
+    for _ in range(40 if quick else 400):
+        behs.append(gen_overlap(rng))
     if prop == "C05":
         # reference-count race at the granularity of try_close's atomics: the model, its negative control, and real threads
         r = vlib.require_ok(vlib.tlc(D, "RefCountRace", cfg="RefCountRace", workers=2, timeout=300), "RefCountRace")
         out.add_tlc(r, "RefCountRace exhaustive: 3 holders releasing the last references concurrently (fetch_sub / decide), AtMostOnce, ExactlyOnceAtEnd")
         if vlib.tlc(D, "RefCountRace", cfg="RefCountRaceNeg", workers=2, timeout=300).ok:
             raise vlib.ToolError("negative control: a non-atomic decrement-then-load was not detected by AtMostOnce")
+        # the CloseGuard protocol (deferred slot removal) with closes overlapping across threads, and its negative control
+        r = vlib.require_ok(vlib.tlc(D, "CloseGuard", cfg="CloseGuard", workers=2, timeout=300), "CloseGuard")
+        out.add_tlc(r, "CloseGuard exhaustive: 3 threads x 2 closes each through 3 Layered frames, every interleaving of start_close / on_close / guard drop; ReadableDuringClose, ClearedAfterClose")
+        if vlib.tlc(D, "CloseGuard", cfg="CloseGuardNeg", workers=2, timeout=300).ok:
+            raise vlib.ToolError("negative control: a registry-wide close counter was not detected by ClearedAfterClose")
         # ... and for ANY number of holders, by the proof system (an inductive invariant; not a bounded check)
         n = vlib.tlapm(D, "RefCountRaceProof")
         out.extra["tlaps_obligations_proved"] = n
